@@ -515,13 +515,19 @@ class AcctSim(object):
         if must_fail:
             return True, False, plan, reasons
         nlv = F(nlv_f)
+        # boundary cases are decided exactly only if the whole account state is exactly representable with short
+        # dyadic numbers: then every valuation the code makes on the way (it values the account several times, and a
+        # valuation with inexact margins is not bit-stable) is exact whatever the order of its operations
+        _pos, _cash, _margins = self.snapshot_getters()
+        state_exact = small_dyadic(F(_cash), 30) and all(small_dyadic(F(x), 30) for x in _pos) and all(small_dyadic(F(x), 30) for x in _margins) \
+            and all(isnan(b[0]) or isnan(b[1]) or (small_dyadic(F(b[0]), 20) and small_dyadic(F(b[1]), 20)) for b in L.book)
         for i in range(L.n):
             w = targets.get(i, 0.0)
             pos = L.pos[i]
             bid, ask = L.book[i]
             if w == 0 and pos == 0:
                 continue
-            exact = True
+            exact = state_exact
             if w != 0:
                 if measure == "weight":
                     px = ask if w > 0 else bid
